@@ -254,14 +254,19 @@ func TestC06(t *testing.T) {
 				continue
 			}
 			name := limitKindNames[kind]
+			// known finding F5 is a Gradient limit BUILT below its queue allowance: the tag applies only while the estimate has never reached it
+			belowSinceBuilt := true
 			check := func(p pre, o SampleObs) {
+				if kind == 2 && p.Est >= gradQueue(p.Est) {
+					belowSinceBuilt = false
+				}
 				if !p.Drop || o.Panicked {
 					return
 				}
 				rep.Distinct("drop-sample", fmt.Sprint(kind, p.Est, p.Rtt, p.Inflight, o.Est))
 				if o.Est > p.Est {
 					sig := name + ":drop-raises"
-					if kind == 2 && p.Est < gradQueue(p.Est) {
+					if kind == 2 && p.Est < gradQueue(p.Est) && belowSinceBuilt {
 						sig += ":estimate-below-queue-allowance" // known finding F5
 					}
 					c.violate(sig, fmt.Sprintf("a drop sample raised EstimatedLimit() %d -> %d", p.Est, o.Est))
@@ -427,7 +432,11 @@ func TestC07(t *testing.T) {
 				continue
 			}
 			name := limitKindNames[kind]
+			belowSinceBuilt := true
 			check := func(p pre, o SampleObs) {
+				if kind == 2 && p.Est >= gradQueue(p.Est) {
+					belowSinceBuilt = false
+				}
 				if p.Drop || o.Panicked {
 					return
 				}
@@ -439,7 +448,7 @@ func TestC07(t *testing.T) {
 					rep.Distinct("app-limited", fmt.Sprint(kind, p.Est, p.Inflight, p.Rtt))
 					if o.Est > p.Est {
 						sig := name + ":app-limited-raise"
-						if kind == 2 && p.Est < gradQueue(p.Est) {
+						if kind == 2 && p.Est < gradQueue(p.Est) && belowSinceBuilt {
 							sig += ":estimate-below-queue-allowance"
 						}
 						c.violate(sig, fmt.Sprintf("a non-drop sample with in-flight %d below half the estimate %v raised EstimatedLimit() %d -> %d", p.Inflight, p.EstF, p.Est, o.Est))
